@@ -69,8 +69,32 @@ class PboGen:
             props.append((r.choice([b'version', b'author', b'product']), r.choice([b'1.0', b'', b'some text'])))
         used = set()
         items = [{'name': self.name(used), 'content': self.content(), 'timestamp': r.below(1 << 31), 'method': 0} for _ in range(r.below(6))]
+        if items and r.chance(1, 4):
+            # a second entry whose name differs from an existing one only in the case of its letters: entry names are
+            # arbitrary, the two are different entries with their own bytes
+            base = r.choice(items)['name'].decode('latin-1')
+            var = ''.join(ch.upper() if ch.islower() and r.chance(1, 2) else ch.lower() if ch.isupper() and r.chance(1, 2) else ch for ch in base)
+            if var == base:
+                var = base.swapcase()
+            if var != base and var not in used:
+                used.add(var)
+                items.insert(r.below(len(items) + 1), {'name': var.encode('latin-1'), 'content': self.content() + b'#case', 'timestamp': 1, 'method': 0})
+                self.note('case-variant entry')
         trailer = r.choice([b'', b'', b'\0' + bytes(r.below(256) for _ in range(20))])
         return props, items, trailer
+
+    def pair(self):
+        """two archives under different prefixes that hold entries of the same names with different bytes"""
+        r = self.r
+        used = set()
+        names = [self.name(used) for _ in range(1 + r.below(4))]
+        pa, pb = r.choice([(b'modA', b'modB'), (b'x\\addons\\one', b'x\\addons\\two'), (b'z\\a', b'z\\b'), (b'mod', b'mod2')])
+        ia = [{'name': n, 'content': self.content() + b'#A', 'timestamp': 1, 'method': 0} for n in names]
+        ib = [{'name': n, 'content': self.content() + b'#B', 'timestamp': 2, 'method': 0} for n in names if r.chance(3, 4)]
+        if r.chance(1, 2):
+            ib.append({'name': self.name(used), 'content': self.content() + b'#B', 'timestamp': 2, 'method': 0})
+        self.note('pair')
+        return ([(b'prefix', pa)], ia), ([(b'prefix', pb)], ib)
 
     def damage(self, data):
         """(kind, bytes)"""
